@@ -134,7 +134,7 @@ func main() {
 				replayWire(out, ws, line)
 				continue
 			}
-			if ws[0] != suite && !(ws[0] == "q" && suite == "rt") {
+			if ws[0] != suite && !((ws[0] == "q" || ws[0] == "aq") && suite == "rt") {
 				continue // a corpus file may be shared; each suite replays its own kind
 			}
 			switch ws[0] {
@@ -150,6 +150,12 @@ func main() {
 					runQ(out, c)
 				} else {
 					out.Line("# bad corpus line (q needs all twelve parameters): %s", line)
+				}
+			case "aq":
+				if c, ok := parseAQ(ws[1:]); ok {
+					runAQ(out, c)
+				} else {
+					out.Line("# bad corpus line (aq: twelve q parameters ; key=~value ...): %s", line)
 				}
 			case "eq":
 				replayEq(out, ws[1:], line)
@@ -176,6 +182,9 @@ func main() {
 		case "rt":
 			if r.Chance(1, 16) {
 				runQ(out, genQ(r))
+			} else if r.Chance(1, 8) {
+				// the real AddParamsFromQuery on typed parameter sets (Model/C08Add.lean fromParams)
+				runAQ(out, genAQ(r))
 			} else {
 				runRT(out, genRT(r, k))
 			}
